@@ -106,8 +106,9 @@ def gen_traffic_gate(rng):
         x = rng.random()
         if x < 0.25:
             evs.append({"op": "add", "a": rng.choice([0, 1, 5, 100, 4096])})
-        elif x < 0.3:
-            evs.append({"op": "addr", "a": rng.choice([1, 7])})
+        # (no bytesReceived adds here: the model follows ONE counter; the two are coupled only through the
+        #  "both deltas zero -> skip" test, which coincides with "sent delta zero" while received stays 0.
+        #  Both counters are checked by the Go predicate in bridge_close_gate / bridge_race.)
         elif x < 0.6:
             evs.append({"op": "start", "a": rng.randrange(nr)})
         else:
